@@ -95,7 +95,7 @@ def tlc(module, cfg=None, workers=8, simulate=None, depth=None, env=None, covera
     jvm.append("-Xss" + (xss or "64m"))
     if dfs: jvm.append("-Dtlc2.tool.queue.IStateQueue=StateDeque")
     cmd = jvm + ["-cp", TLAJAR, "tlc2.TLC", "-workers", str(workers), "-metadir", meta,
-                 "-config", cfg]
+                 "-noGenerateSpecTE", "-config", cfg]   # no trace-exploration spec: on a long trace its generation alone exhausts the heap
     if coverage: cmd += ["-coverage", "1"]
     if simulate: cmd += ["-simulate", "num=%d" % simulate]
     if depth: cmd += ["-depth", str(depth)]
@@ -120,7 +120,8 @@ def tlc(module, cfg=None, workers=8, simulate=None, depth=None, env=None, covera
     if rc == 0 and re.search(r"^Error: |StackOverflowError", out, re.M):
         raise Infra("TLC reported an error but exited 0 on %s/%s:\n%s" % (module, cfg, out[-4000:]))
     if rc not in (0, 10, 11, 12, 13):
-        raise Infra("TLC failed rc=%s on %s/%s:\n%s" % (rc, module, cfg, out[-6000:]))
+        errs = "\n".join(l[:400] for l in out.splitlines() if re.search(r"Error|violated|Exception|evaluat", l))[:3000]
+        raise Infra("TLC failed rc=%s on %s/%s:\n%s\n...\n%s" % (rc, module, cfg, errs, out[-1500:]))
     return r
 
 def tlc_printed_json(out):
